@@ -209,19 +209,20 @@ class _NoShape(Exception):
 def _dict_writer(fn, want_values=False):
     """get_state building a dict: -> (keys, has_super) or None when it has another shape.
 
-    Abstract interpretation of the (straight-line) body over the domain "dict with a known key set": ``{..}`` displays incl. ``**``,
+    Abstract interpretation of the body over the domain "dict with a known key set": ``{..}`` displays incl. ``**``,
     ``dict(..)``, ``a | b``, ``super().get_state()``, locals bound to such values, ``d[k] = ..``, ``d.update(..)`` (mapping and/or keywords),
     ``d |= ..``, ``d.setdefault(k, ..)``, ``d.copy()``; the returned value decides.  Statements that do not touch a tracked dict (logging,
-    asserts, unrelated temporaries) are transparent; a tracked dict changed under a condition / loop is not modelled (None)."""
-    env: dict = {}
+    asserts, unrelated temporaries) are transparent.  ``if``/``else`` (and early returns) are followed on both arms: the arms - and all
+    returns - must agree on the key set (``d["k"] = a`` / ``else: d["k"] = None`` is the conditional expression spelled out); a key
+    written on one path only, or a tracked dict changed in a loop / ``try``, is not modelled (None)."""
 
-    def val(e):
+    def val(e, env):
         """(keys, has_super, {key: value node}) | None when ``e`` is not a dict of known keys"""
         if isinstance(e, ast.Dict):
             keys, sup, vals = set(), False, {}
             for k, v in zip(e.keys, e.values):
                 if k is None:
-                    r = val(v)
+                    r = val(v, env)
                     if r is None:
                         raise _NoShape
                     keys |= r[0]
@@ -240,23 +241,23 @@ def _dict_writer(fn, want_values=False):
             k, s_, v = env[e.id]
             return set(k), s_, dict(v)
         if isinstance(e, ast.Call) and isinstance(e.func, ast.Name) and e.func.id == "dict" and len(e.args) <= 1:
-            base = (set(), False, {}) if not e.args else val(e.args[0])
+            base = (set(), False, {}) if not e.args else val(e.args[0], env)
             if base is None:
                 return None
-            return merge(base, e.keywords)
+            return merge(base, e.keywords, None, env)
         if isinstance(e, ast.Call) and isinstance(e.func, ast.Attribute) and e.func.attr == "copy" and not e.args and not e.keywords:
-            return val(e.func.value)
+            return val(e.func.value, env)
         if isinstance(e, ast.BinOp) and isinstance(e.op, ast.BitOr):
-            a, b = val(e.left), val(e.right)
+            a, b = val(e.left, env), val(e.right, env)
             if a is None or b is None:
                 return None
             return a[0] | b[0], a[1] or b[1], {**a[2], **b[2]}
         return None
 
-    def merge(base, keywords, mapping=None):
+    def merge(base, keywords, mapping, env):
         keys, sup, vals = set(base[0]), base[1], dict(base[2])
         for extra in [mapping] if mapping is not None else []:
-            r = val(extra)
+            r = val(extra, env)
             if r is None:
                 raise _NoShape
             keys |= r[0]
@@ -264,7 +265,7 @@ def _dict_writer(fn, want_values=False):
             vals.update(r[2])
         for kw in keywords:
             if kw.arg is None:
-                r = val(kw.value)
+                r = val(kw.value, env)
                 if r is None:
                     raise _NoShape
                 keys |= r[0]
@@ -275,7 +276,7 @@ def _dict_writer(fn, want_values=False):
                 vals[kw.arg] = kw.value
         return keys, sup, vals
 
-    def touches(node):
+    def touches(node, env):
         """names of tracked dicts that ``node`` may change (stores, item stores, mutating method calls)"""
         out = set()
         for n in ast.walk(node):
@@ -288,18 +289,29 @@ def _dict_writer(fn, want_values=False):
                 out.add(n.func.value.id)
         return out
 
-    result = []
-    try:
-        for st in fn.body:
+    def clone(env):
+        return {k: (set(v[0]), v[1], dict(v[2])) for k, v in env.items()}
+
+    def alt(test, a, b):
+        """the value a key has after `if test: d[k] = a / else: d[k] = b`"""
+        if norm(a) == norm(b):
+            return a
+        return ast.copy_location(ast.IfExp(test=test, body=a, orelse=b), a)
+
+    results = []
+
+    def run(stmts, env) -> bool:
+        """interpret a block; True when every path through it returns (the values are collected in ``results``)"""
+        for st in stmts:
             if isinstance(st, ast.Return):
                 if st.value is None:
-                    return None
-                result.append(val(st.value))
-                break
+                    raise _NoShape
+                results.append(val(st.value, env))
+                return True
             if isinstance(st, (ast.Assign, ast.AnnAssign)) and st.value is not None:
                 targets = st.targets if isinstance(st, ast.Assign) else [st.target]
                 if len(targets) == 1 and isinstance(targets[0], ast.Name):
-                    r = val(st.value)
+                    r = val(st.value, env)
                     if r is not None:
                         env[targets[0].id] = r
                     else:
@@ -308,15 +320,15 @@ def _dict_writer(fn, want_values=False):
                 if len(targets) == 1 and isinstance(targets[0], ast.Subscript) and isinstance(targets[0].value, ast.Name) and targets[0].value.id in env:
                     k = _const_str(targets[0].slice)
                     if k is None:
-                        return None
+                        raise _NoShape
                     keys, sup, vals = env[targets[0].value.id]
                     keys.add(k)
                     vals[k] = st.value
                     continue
             if isinstance(st, ast.AugAssign) and isinstance(st.op, ast.BitOr) and isinstance(st.target, ast.Name) and st.target.id in env:
-                r = val(st.value)
+                r = val(st.value, env)
                 if r is None:
-                    return None
+                    raise _NoShape
                 a = env[st.target.id]
                 env[st.target.id] = (a[0] | r[0], a[1] or r[1], {**a[2], **r[2]})
                 continue
@@ -324,27 +336,103 @@ def _dict_writer(fn, want_values=False):
                     and isinstance(st.value.func.value, ast.Name) and st.value.func.value.id in env:
                 c, name = st.value, st.value.func.value.id
                 if c.func.attr == "update" and len(c.args) <= 1:
-                    env[name] = merge(env[name], c.keywords, c.args[0] if c.args else None)
+                    env[name] = merge(env[name], c.keywords, c.args[0] if c.args else None, env)
                     continue
                 if c.func.attr == "setdefault" and len(c.args) == 2 and _const_str(c.args[0]) is not None:
                     env[name][0].add(_const_str(c.args[0]))
                     env[name][2].setdefault(_const_str(c.args[0]), c.args[1])
                     continue
-                return None
-            if touches(st):
-                return None  # a tracked dict changed conditionally / in a loop / by an unmodelled operation
-            if any(isinstance(n, ast.Return) for n in ast.walk(st)):
-                return None  # several exits
+                raise _NoShape
+            relevant = bool(touches(st, env)) or any(isinstance(n, ast.Return) for n in ast.walk(st))
+            if not relevant:
+                continue
+            if isinstance(st, ast.If) and not touches(st.test, env):
+                ea, eb = clone(env), clone(env)
+                ta, tb = run(st.body, ea), run(st.orelse, eb)
+                if ta and tb:
+                    return True
+                if ta or tb:
+                    new = eb if ta else ea
+                else:
+                    new = {}
+                    for name in set(ea) | set(eb):
+                        if name not in ea or name not in eb:
+                            continue  # bound to a dict on one arm only: no longer tracked (a later use of it is not a known dict)
+                        a, b = ea[name], eb[name]
+                        if a[0] != b[0] or a[1] != b[1]:
+                            raise _NoShape  # a key written on one path only
+                        new[name] = (a[0], a[1], {k: alt(st.test, a[2][k], b[2][k]) if k in a[2] and k in b[2] else a[2].get(k, b[2].get(k)) for k in a[0]})
+                env.clear()
+                env.update(new)
+                continue
+            if isinstance(st, (ast.With, ast.AsyncWith)) and not any(touches(i.context_expr, env) for i in st.items):
+                if run(st.body, env):
+                    return True
+                continue
+            raise _NoShape  # a tracked dict changed in a loop / try / by an unmodelled operation, or a return inside one
+        return False
+
+    try:
+        if not run(fn.body, {}):
+            return None  # a path falls off the end (returns None)
     except _NoShape:
         return None
-    if len(result) != 1 or result[0] is None:
+    if not results or any(r is None for r in results):
         return None
-    keys, sup, vals = result[0]
+    keys, sup, vals = results[0]
+    for r in results[1:]:
+        if r[0] != keys or r[1] != sup:
+            return None
+        vals = {**r[2], **vals}
     return (keys, sup, vals) if want_values else (keys, sup)
 
 
-def _dict_reader(fn):
-    """set_state consuming a dict parameter: -> dict(required, optional, super_at, last_read_at, exhaustive)."""
+def _const_strs_resolver(model, m, c, fn):
+    """f(expr) -> [str, ...] | None: the string constants the *loop variable* ``expr`` ranges over in ``fn`` - the target of exactly one
+    ``for`` (or comprehension) whose iterable is a tuple / list display of string constants, written in place or held by a constant:
+    ``self.X`` / ``cls.X`` / ``Class.X`` (class-level, along the MRO) or a module-level ``X`` (bound once)."""
+
+    def literal(e, depth=0):
+        if isinstance(e, (ast.Tuple, ast.List)) and e.elts and all(_const_str(x) is not None for x in e.elts):
+            return [x.value for x in e.elts]
+        if depth > 2:
+            return None
+        if isinstance(e, ast.Attribute) and isinstance(e.value, ast.Name):
+            owners = []
+            if e.value.id in ("self", "cls", c.name):
+                owners = model.mro(m.rel, c._qual)
+            else:
+                r = model.resolve_name(m, e.value)
+                if r is not None and isinstance(r[1], ast.ClassDef):
+                    owners = model.mro(r[0].rel, r[1]._qual)
+            for mm, cc in owners:
+                vals = [st.value for st in cc.body if isinstance(st, (ast.Assign, ast.AnnAssign)) and st.value is not None
+                        and any(isinstance(t, ast.Name) and t.id == e.attr for t in (st.targets if isinstance(st, ast.Assign) else [st.target]))]
+                if vals:
+                    writes = [n for n in ast.walk(mm.tree) if isinstance(n, ast.Attribute) and n.attr == e.attr and isinstance(n.ctx, (ast.Store, ast.Del))]
+                    return literal(vals[0], depth + 1) if len(vals) == 1 and not writes else None
+            return None
+        if isinstance(e, ast.Name) and not any(isinstance(n, ast.Name) and n.id == e.id and isinstance(n.ctx, ast.Store) for n in ast.walk(fn)) \
+                and e.id not in [a.arg for a in fn.args.args]:
+            vals = m.assigns(e.id)
+            return literal(vals[0], depth + 1) if len(vals) == 1 else None
+        return None
+
+    def resolve(e):
+        if not isinstance(e, ast.Name):
+            return None
+        stores = [n for n in ast.walk(fn) if isinstance(n, ast.Name) and n.id == e.id and isinstance(n.ctx, ast.Store)]
+        loops = [n for n in ast.walk(fn) if isinstance(n, (ast.For, ast.comprehension)) and n.target in stores]
+        if len(stores) != 1 or len(loops) != 1:
+            return None
+        return literal(loops[0].iter)
+
+    return resolve
+
+
+def _dict_reader(fn, resolve=None):
+    """set_state consuming a dict parameter: -> dict(required, optional, super_at, last_read_at, exhaustive).  A key that is not a string
+    constant is accepted when ``resolve`` shows it to be a loop variable over known string constants (every one of them is consumed)."""
     params = [a.arg for a in fn.args.args]
     if len(params) != 2:
         return None
@@ -352,18 +440,25 @@ def _dict_reader(fn):
     required, optional = set(), set()
     super_at, last_read = None, None
     exhaustive = False
+
+    def keys_of(e):
+        k = _const_str(e)
+        if k is not None:
+            return [k]
+        return resolve(e) if resolve is not None else None
+
     for n in walk_in_order(fn):
         if isinstance(n, ast.Call) and isinstance(n.func, ast.Attribute) and n.func.attr == "pop" and isinstance(n.func.value, ast.Name) and n.func.value.id == st:
-            k = _const_str(n.args[0]) if n.args else None
-            if k is None:
+            ks = keys_of(n.args[0]) if n.args else None
+            if ks is None:
                 return None
-            (optional if len(n.args) > 1 else required).add(k)
+            (optional if len(n.args) > 1 else required).update(ks)
             last_read = (n.lineno, n.col_offset)
         elif isinstance(n, ast.Subscript) and isinstance(n.value, ast.Name) and n.value.id == st and isinstance(n.ctx, ast.Load):
-            k = _const_str(n.slice)
-            if k is None:
+            ks = keys_of(n.slice)
+            if ks is None:
                 return None
-            required.add(k)
+            required.update(ks)
         elif _is_super_call(n, "set_state"):
             super_at = min(super_at or (n.lineno, n.col_offset), (n.lineno, n.col_offset))
         elif isinstance(n, ast.Assert) and norm(n.test) in (f"{st} == {{}}", f"not {st}"):
@@ -529,7 +624,7 @@ def _one_implementor(ctx, m, c):
     dw = _dict_writer(gs)
     if dw is not None and _method(c, "set_state") is not None:
         keys, has_super = dw
-        rd = _dict_reader(ss)
+        rd = _dict_reader(ss, _const_strs_resolver(model, m, c, ss))
         ctx.require(rd is not None, f"{name}.set_state: unmodelled dict reader")
         lost = keys - rd["required"] - rd["optional"]
         missing = rd["required"] - keys
